@@ -175,6 +175,7 @@ class C01Monitor(jobsim.Monitor):
         for kf in range(len(offs) - 1):
             sc[offs[kf] : offs[kf + 1]] = Lc if kf == 0 else (float(un.get("S", 1.0)) if kf == 1 else 1.0)
         dirs = [(nm, dv_ * sc) for nm, dv_ in dirs]
+        scx = sc  # (the name sc is re-used for a scalar further down)
         xs = 1.0 + float(np.abs(x / sc).max())
         for dname, dv in dirs:
             Kd = Kuse @ dv
@@ -329,7 +330,7 @@ class C01Monitor(jobsim.Monitor):
                 if self.nprobe % 2:
                     x_there = np.zeros_like(x_here)
                 else:
-                    x_there = x_here + 0.05 * xs * self.rng.normal(size=x_here.size)
+                    x_there = x_here + 0.05 * xs * scx[: x_here.size] * self.rng.normal(size=x_here.size)
                 fk3.set_vector(x_there)
                 other = item.field.copy()
                 fk3.set_vector(x_here)
@@ -347,6 +348,27 @@ class C01Monitor(jobsim.Monitor):
                     if not ok:
                         self.V("call-order", f"vector(field=<another container>) followed by matrix() of item {k} ({spec['type']}) is not the matrix at the state of that container (rel {rel:.2e})", site=f"{spec['type']}.matrix-after-vector-on-other-container")
                     self.log.count("other-container-checked")
+                    if spec["type"] == "MultiPointContact":
+                        # at that (randomly perturbed: some points closed, some open) state the matrix is
+                        # the derivative of the item's own piecewise-linear vector
+                        nloc = x_there.size
+                        dv_ = self.rng.normal(size=nloc) * scx[:nloc]
+
+                        def r_at(xx):
+                            fk6.set_vector(xx)
+                            return fk6.items[k].assemble.vector(field=fk6.items[k].field).toarray().ravel()
+
+                        gs = []
+                        for h_ in (1e-6 * xs, 1e-7 * xs):
+                            gs.append((r_at(x_there + h_ * dv_) - r_at(x_there - h_ * dv_)) / (2 * h_))
+                        fk6.set_vector(x_there)
+                        Kd_ = K_cold @ np.concatenate([dv_, np.zeros(max(0, K_cold.shape[1] - nloc))])[: K_cold.shape[1]]
+                        gn = float(np.linalg.norm(gs[0])) + float(np.linalg.norm(Kd_)) + 1e-300
+                        if float(np.linalg.norm(gs[0] - gs[1])) <= 1e-6 * gn:  # no switch within the step
+                            err_ = float(np.linalg.norm(Kd_[: gs[1].size] - gs[1][: Kd_.size]))
+                            if err_ > 1e-5 * gn:
+                                self.V("fd-tangent", f"MultiPointContact at a partly closed state: K.d differs from the central difference of the item's vector by {err_:.3e} (scale {gn:.3e}; {len(item.points)} points)", site="MultiPointContact.partial-contact")
+                            self.log.count("partial-contact-fd-probe")
             self.log.count("call-order-checked")
         # parallel knob -----------------------------------------------------------------------------
         if self.doc["c01"].get("parallel") and self.nprobe % 2 == 0:
